@@ -212,6 +212,7 @@ class Expander:
         self.guard_stack: List[T] = []
         self.stmt_guards: Dict[int, tuple] = {}
         self.final_env: Dict[str, T] = {}
+        self.env_at: Dict[int, Dict[str, T]] = {}
         self._cache: Dict[int, T] = {}
         env = dict(outer_env or {})
         a = fi.node.args
@@ -227,8 +228,17 @@ class Expander:
     # -- statements --------------------------------------------------------------------
     def _block(self, stmts, env):
         for st in stmts:
+            self.env_at[id(st)] = dict(env)
             env = self._stmt(st, env)
         return env
+
+    def term_of_source(self, src: str, at_stmt: ast.AST = None) -> "T":
+        """The term of an expression given as source text, with names bound as they are at statement `at_stmt` (or at
+        the end of the function): the reference side of 'this statement computes <expr>' comparisons."""
+        node = ast.parse(src, mode="eval").body
+        env = self.env_at.get(id(at_stmt)) if at_stmt is not None else None
+        self._record_names(node, env if env is not None else self.final_env)
+        return self._tr(node)
 
     def _record_names(self, node, env):
         """Bind every Name load under `node` (not descending into nested defs)."""
